@@ -39,13 +39,13 @@ type Cap struct {
 
 // Attr is one named path attribute.
 type Attr struct {
-	Name string
-	Kind string // attribute kind: one Kind = one decoder path (e.g. "extcomm/color"); Rep marks its simplest member
-	Rep  bool
-	AS   int        // ASAny / AS4 / AS2
-	Fam  bgp.Family // for MP_REACH / MP_UNREACH: the family carried (0 otherwise)
-	HasID bool      // carries a non-zero ADD-PATH identifier (lost, by design, when ADD-PATH is off for Fam)
-	Attr bgp.PathAttributeInterface
+	Name  string
+	Kind  string // attribute kind: one Kind = one decoder path (e.g. "extcomm/color"); Rep marks its simplest member
+	Rep   bool
+	AS    int        // ASAny / AS4 / AS2
+	Fam   bgp.Family // for MP_REACH / MP_UNREACH: the family carried (0 otherwise)
+	HasID bool       // carries a non-zero ADD-PATH identifier (lost, by design, when ADD-PATH is off for Fam)
+	Attr  bgp.PathAttributeInterface
 }
 
 // NLRI is one named NLRI of one family.
@@ -209,7 +209,7 @@ func LabelStacks() []bgp.MPLSLabelStack {
 		*bgp.NewMPLSLabelStack(0xfffff),
 		*bgp.NewMPLSLabelStack(16, 17),
 		*bgp.NewMPLSLabelStack(0xfffff, 0xffffe, 1),
-		*bgp.NewMPLSLabelStack(3, 0), // explicit-null at the bottom
+		*bgp.NewMPLSLabelStack(3, 0),  // explicit-null at the bottom
 		*bgp.NewMPLSLabelStack(0, 16), // explicit-null on top (RFC 4182)
 		*bgp.NewMPLSLabelStack(bgp.WITHDRAW_LABEL),
 	}
